@@ -41,7 +41,7 @@ func (iv *c17Inv) keys() []int {
 
 func genC17(c *Ctx) error {
 	c.ShardSize = 150
-	c.Notes["rule"] = "one token chaincode instance; 2-3 invocations, each on its own goroutine with its own simulated transaction: an immediate method (also behind an argument whose decoding is a switch point of its own), a query with the same body (it reports in whose transaction it finds itself at every step), batchExecute with one or two pending transactions, executeTasks with one or two tasks, swapDone whose completion listener runs with the context swapDone installed; every body re-obtains its context (GetStub) 1-3 times, reads its own previous write and writes a key, and is parked before each of these points; a scheduler releases the parked invocations in a random order (all interleavings of the switch points are reachable, nested and overlapping lifetimes). Observed per invocation: status, payload, complete write-set, event - compared with the same proposal run alone over the same committed state - and the keys that landed in its write-set. Half of the instances have served a few refused requests (failing method, undecodable argument, failing task) before. Non-trivial: the lifetimes of at least two invocations overlap."
+	c.Notes["rule"] = "one token chaincode instance; 2-3 invocations, each on its own goroutine with its own simulated transaction: an immediate method (also behind an argument whose decoding is a switch point of its own), a query with the same body (it reports in whose transaction it finds itself at every step), batchExecute with one or two pending transactions, executeTasks with one or two tasks, swapDone whose completion listener runs with the context swapDone installed; every body re-obtains its context (GetStub) 1-3 times, reads its own previous write and writes a key, and is parked before each of these points; a scheduler releases the parked invocations in a random order (all interleavings of the switch points are reachable, nested and overlapping lifetimes). Observed per invocation: status, payload, complete write-set, event - compared with the same proposal run alone over the same committed state - and the keys that landed in its write-set. One case in three also has an invocation that panics inside its method while others are parked. Half of the instances have served a few refused requests (failing method, undecodable argument, failing task) before. Non-trivial: the lifetimes of at least two invocations overlap."
 	n := c.N(150, 3000)
 	for i := 0; i < n; i++ {
 		if i == n/2 {
@@ -433,6 +433,7 @@ func c17Case(c *Ctx) error {
 		}
 	}
 	overlap := 0
+	boom := rng.Intn(3) == 0
 	for {
 		var cand []int
 		for i := range invs {
@@ -452,6 +453,13 @@ func c17Case(c *Ctx) error {
 		}
 		if live >= 2 {
 			overlap++
+		}
+		if boom && live >= 1 && rng.Intn(3) == 0 {
+			// while others are parked in mid-body, an invocation of its own (not one of the scheduled ones) runs from start
+			// to end on this goroutine and panics inside its method: it is answered "panic", and is nobody else's business
+			boom = false
+			r, _ := w.Peer.Simulate("tt", w.Peer.NextTxID(), w.Client.Creator, false, strArgs([]string{"qScript", "nbPanic"}[rng.Intn(2)], []string{"nilpanic"}))
+			c.Count(fmt.Sprintf("panicking_invocation_next_to_parked_ones_status_%d", r.Status))
 		}
 		if state[i] == 0 {
 			iv := invs[i]
